@@ -99,6 +99,9 @@ def run(prop, tier, seed, replay=None):
                 {"points": 10 if tier == "quick" else 40, "boundary": 1 if prop == "C06" else 0})
     violations = list(s["violations"])
     c = s["counters"]
+    if c.get("log_missing", 0) > 0.1 * max(1, c.get("outcome_Ok", 0)):
+        raise core.ToolError("the repository's debug log (feature `log`, print_debug_info) did not deliver the Feynman parameters for %d of %d samples: "
+                             "the observation point of these checks is gone" % (c.get("log_missing", 0), c.get("outcome_Ok", 0)))
     if c.get("outcome_Ok", 0) < 1000:
         raise core.ToolError("vacuity guard: only %d successful samples" % c.get("outcome_Ok", 0))
     sec = None
